@@ -92,7 +92,7 @@ func checkC17(c *Ctx) {
 	if fn, ok := t.Prog.ByName["Parser.parseExprWithPrecedence"]; ok {
 		nf := ir.String(t.Path, ks.Func(fn))
 		want := "seq[assign($0 := (Parser).parseTerm(p0)); for((); (Parser).nextNonEOLIsBinOp(p0); ()){seq[(Parser).skipEOL(p0); assign($1 := (Parser).Current(p0).ttype); assign($2 := var:binOpMap[$1])] if(($2.precedence < p1), return($0), seq[(Parser).consume(p0, $1); assign($3 := (Parser).parseExprWithPrecedence(p0, ($2.precedence + 1))); assign($0 = NewBinOpCall($1, $2, $0, $3))])}] $0"
-		r.Check(nf == want, "C17.b", "Parser.parseExprWithPrecedence", "closed-form", c.Pos(t.M.Fset, fn.Decl.Pos()),
+		r.Check(canonDiag(nf) == canonDiag(want), "C17.b", "Parser.parseExprWithPrecedence", "closed-form", c.Pos(t.M.Fset, fn.Decl.Pos()),
 			"same three facts as fc's parseBinAfter: stop iff rank < minPrec, right operand at rank+1, node(cur, rhs), minPrec unchanged in the loop", "tinyfo's precedence loop departs from fc's; "+diffHint(nf, want))
 	} else {
 		r.Undecided("C17.b", "Parser.parseExprWithPrecedence", "definition", "tinyfo", "anchor function not found")
